@@ -214,6 +214,9 @@ class C24(Spec):
     )
 
     def setup(self, verif_seed, tier):
+        from sim import receivers as R
+
+        R.use_real_levels()
         self.verif_seed = verif_seed
 
     def generate(self, rng, idx, tier):
